@@ -414,3 +414,28 @@ def c02_bounded(tier, seed):
     })
     res["trusted"] += ["fontTools.pens.cu2quPen.Cu2QuPointPen (bounded: C02 observer)", "fontTools.pens.ttGlyphPen.TTGlyphPointPen (bounded: C02 observer)", "maxp.recalc (bounded: C02 observer)"]
     return res
+
+
+def replay(path):
+    """`.venv/bin/python -m vcheck.hooks.c02 <replay.json>` — re-run one bounded case"""
+    import json
+
+    with open(path) as f:
+        pl = json.load(f)
+    case = pl.get("case")
+    print(json.dumps({k: v for k, v in pl.items() if k != "case"}, indent=1, default=str)[:2000])
+    if case is None:
+        return 0
+    if "graph" in case:
+        why = check_depth_graph({k: tuple(v) for k, v in case["graph"].items()}, case["start"])
+        print("replay result:", why or "ok")
+        return 1 if why else 0
+    bad = observe_ttf(case)
+    print("replay result:", bad[:2] if bad else "agrees with the reference semantics")
+    return 1 if bad else 0
+
+
+if __name__ == "__main__":
+    import sys
+
+    sys.exit(replay(sys.argv[1]))
